@@ -311,7 +311,12 @@ static void jstr(const char *s) {
         unsigned char c = (unsigned char)*s;
         if (c == '"' || c == '\\') { putchar('\\'); putchar(c); }
         else if (c < 0x20) printf("\\u%04x", c);
-        else putchar(c);
+        else if (c < 0x80) putchar(c);
+        else {  /* emit only well-formed UTF-8 sequences */
+            int n = (c >= 0xC2 && c < 0xE0) ? 2 : (c >= 0xE0 && c < 0xF0) ? 3 : (c >= 0xF0 && c < 0xF5) ? 4 : 0, ok = n > 0;
+            for (int i = 1; i < n && ok; i++) if (((unsigned char)s[i] & 0xC0) != 0x80) ok = 0;
+            if (ok) { for (int i = 0; i < n; i++) putchar(s[i]); s += n - 1; } else putchar('?');
+        }
     }
     putchar('"');
 }
